@@ -131,6 +131,72 @@ def gen_core(rng, n_chroms=None, n_samples=None, length=None, n_variants=None, p
             "libs": {}, "header": [], "ploidy": ploidy}
 
 
+def make_trio(rng, world):
+    """
+    Turn the first three samples into (child, father, mother) with a Mendelian main truth: the child's haplotypes are one
+    transmitted haplotype of each parent (sometimes recombined); a fourth sample becomes a sibling or stays unrelated.
+    Sets world["ped_text"].  Must be called right after gen_core (genotype texts are re-rendered sorted).
+    """
+    samples = world["samples"]
+    assert len(samples) >= 3
+    t = world["truth"]["main"]
+    # the role of each sample is drawn, so that PED order, VCF column order and alphabetical order differ
+    roles = list(samples[:3])
+    rng.shuffle(roles)
+    kid, dad, mum = roles
+    kids = [kid]
+    if len(samples) > 3 and rng.random() < 0.5:
+        kids.append(samples[3])
+    lines = []
+    # core variants are listed chromosome by chromosome; recombine within a chromosome only
+    cores = [r for r in world["records"] if r.get("core")]
+    bounds = []
+    k = 0
+    for ci in range(len(world["chroms"])):
+        n = sum(1 for r in cores if r["chrom"] == ci)
+        bounds.append((k, k + n))
+        k += n
+    for kd in kids:
+        mat, pat = [], []
+        for lo, hi in bounds:
+            hm, hf = rng.randrange(2), rng.randrange(2)
+            m = list(t[mum][hm][lo:hi])
+            f = list(t[dad][hf][lo:hi])
+            if hi - lo > 4 and rng.random() < 0.4:
+                bp = rng.randrange(2, hi - lo - 1)
+                m = m[:bp] + list(t[mum][1 - hm][lo:hi])[bp:]
+            if hi - lo > 4 and rng.random() < 0.25:
+                bp = rng.randrange(2, hi - lo - 1)
+                f = f[:bp] + list(t[dad][1 - hf][lo:hi])[bp:]
+            mat += m
+            pat += f
+        t[kd] = [pat, mat] if rng.random() < 0.5 else [mat, pat]
+        lines.append("fam1 %s %s %s 0 1" % (kd, dad, mum))
+    rng.shuffle(lines)
+    for k, r in enumerate(cores):
+        for s in kids:
+            al = sorted(h[k] for h in t[s])
+            r["calls"][s][0] = "/".join(str(a) for a in al)
+    world["ped_text"] = "\n".join(lines) + "\n"
+    world["trio"] = {"kids": kids, "father": dad, "mother": mum}
+    return world
+
+
+def ped_individuals(ped_text):
+    """all individuals of complete trios in a PED text (what `--use-ped-samples` selects)"""
+    out = []
+    for line in ped_text.splitlines():
+        f = line.split()
+        if len(f) < 4 or line.startswith("#"):
+            continue
+        if "0" in (f[1], f[2], f[3]):
+            continue
+        for x in (f[1], f[2], f[3]):
+            if x not in out:
+                out.append(x)
+    return out
+
+
 def core_indices(world):
     return [i for i, r in enumerate(world["records"]) if r.get("core")]
 
